@@ -185,7 +185,7 @@ class State:
         self.assumed_ids = set()     # ids of pc entries that are assumptions (not branch decisions)
         self.effects = []
         self.obligations = []
-        self.counter = itertools.count()
+        self.counter = 0
         self.path_id = path_id
         self.solver = z3.Solver()
         self.solver.set('timeout', timeout_ms)
@@ -208,7 +208,8 @@ class State:
 
     # ---- naming ---------------------------------------------------------------------
     def fresh_name(self, hint):
-        return f'{hint}!{next(self.counter)}'
+        self.counter += 1
+        return f'{hint}!{self.counter - 1}'
 
     def fresh_val(self, hint='v'):
         return z3.Const(self.fresh_name(hint), PyV)
